@@ -9,6 +9,7 @@ renumbering."""
 from __future__ import annotations
 
 import json
+import os
 from collections import Counter
 
 from mc.checks.c03 import canonical_numbering
@@ -130,7 +131,9 @@ def oracle(sc, ctx, program):
     def factory():
         return bpm.run(sc, program, observe=True).hugr  # the graph was looked at after every builder call
 
-    for hist, h in mutate.histories(factory, _DEPTH, _TIER, kinds=PHASE2_KINDS if _DEPTH >= 2 else None):
+    # VERIF_C02_ONLY=loaded (seeded-change tooling only, never the registered commands): just the loaded-origin part
+    hs = [] if os.environ.get("VERIF_C02_ONLY") == "loaded" else mutate.histories(factory, _DEPTH, _TIER, kinds=PHASE2_KINDS if _DEPTH >= 2 else None)
+    for hist, h in hs:
         tag = "+".join(m[0] for m in hist) or "built"
         for sig, msg in check_roundtrip(h, tag):
             out.append((sig, f"{msg} | history={hist} | program={program}"))
